@@ -15,7 +15,7 @@ use std::sync::atomic::{AtomicU64, Ordering::Relaxed};
 #[derive(Clone, Copy, Debug, PartialEq, Eq, Hash)]
 enum Act {
     Next,
-    Frames(u8), // next_frames().take(k), k = cap+1 observes the None
+    Frames(u32), // next_frames().take(k), k = cap+1 observes the None
     Exhausted,
 }
 impl Act {
@@ -37,10 +37,10 @@ impl Act {
 
 #[derive(Clone, Copy, Debug, PartialEq, Eq, Hash)]
 struct Init {
-    cap: u8,
-    start: u8,
-    len: u8,
-    src: u8,
+    cap: u32,
+    start: u32,
+    len: u32,
+    src: u32,
 }
 
 type Bad = (String, String);
@@ -169,7 +169,7 @@ fn drain_case_inner(i: &Init) -> Option<Bad> {
     None
 }
 
-fn alphabet(cap: u8) -> Vec<Act> {
+fn alphabet(cap: u32) -> Vec<Act> {
     let mut v = vec![Act::Next, Act::Exhausted];
     for k in 0..=cap + 1 {
         // large capacities (scale probes): batch sizes at structured values only
@@ -267,7 +267,7 @@ fn main() {
     let ctx: &'static Ctx = Ctx::leak("C14", "release");
     if let Some(v) = ctx.replay_case() {
         let _guard_scope = guard::scoped(&v.to_string());
-        let i = Init { cap: v["cap"].as_u64().unwrap_or(1) as u8, start: v["start"].as_u64().unwrap_or(0) as u8, len: v["len"].as_u64().unwrap_or(0) as u8, src: v["src"].as_u64().unwrap_or(0) as u8 };
+        let i = Init { cap: v["cap"].as_u64().unwrap_or(1) as u32, start: v["start"].as_u64().unwrap_or(0) as u32, len: v["len"].as_u64().unwrap_or(0) as u32, src: v["src"].as_u64().unwrap_or(0) as u32 };
         if v["sys"] == "buffered_drain" {
             ctx.finish_replay(catch(|| drain_case(&i)).unwrap_or_else(|p| Some(("panic".into(), p))).map(|e| e.1));
         }
@@ -281,7 +281,7 @@ fn main() {
     }
     let depth = ctx.tier.pick(5, 7);
     let mut inits = Vec::new();
-    for cap in 1..=ctx.tier.pick(4u8, 5u8) {
+    for cap in 1..=ctx.tier.pick(4u32, 5u32) {
         for start in 0..cap {
             for len in 0..=cap {
                 for src in 0..=2 * cap + 1 {
@@ -292,7 +292,7 @@ fn main() {
     }
     // scale probes (merged run only): capacities 8 and 16 from structured initial states
     let mut big_inits = Vec::new();
-    for cap in [8u8, 16] {
+    for cap in [8u32, 16] {
         for start in [0, cap - 1] {
             for len in [0, 1, cap - 1, cap] {
                 for src in [0, 1, cap - 1, cap, cap + 1, 2 * cap + 1] {
@@ -339,11 +339,11 @@ fn main() {
     let uniq: usize = res.iter().map(|r| r.0).sum();
     // big-capacity probes: every residual fill level r of a large ring, short structured histories
     let mut big_hist = 0u64;
-    for cap in [32u8, 33, 48, 64, 65, 96, 128, 255] {
+    for cap in [32u32, 33, 48, 64, 65, 96, 128, 255] {
         for r in 0..=cap {
             let i = Init { cap, start: cap - 1, len: r, src: 0 };
             for pre in [0usize, 1, 2] {
-                for k in [0u8, 1, 2, 3, cap] {
+                for k in [0u32, 1, 2, 3, cap] {
                     let mut acts = vec![Act::Next; pre];
                     acts.extend([Act::Frames(k), Act::Next, Act::Exhausted, Act::Frames(1), Act::Exhausted]);
                     big_hist += 1;
@@ -359,9 +359,37 @@ fn main() {
     ctx.add_evals(big_hist);
     ctx.set("big_capacity_histories", json!(big_hist));
     ctx.rule("big-capacity probes: capacities 32, 33, 48, 64, 65, 96, 128, 255 x every residual fill level 0..=cap x 0..2 leading next() calls x a batch of 0,1,2,3 or cap frames, then next / is_exhausted / a batch of 1: same stream, pull and exhaustion oracle");
+    // 16-bit boundary probes: capacities around 2^16, structured fill levels and start offsets
+    let mut cases16: Vec<(Init, Vec<Act>)> = Vec::new();
+    for cap in [65535u32, 65536, 65537] {
+        for r in [0u32, 1, 2, cap / 2, cap - 2, cap - 1, cap] {
+            for start in [0u32, 1, 255, 256, cap / 2, cap - 1] {
+                let i = Init { cap, start, len: r, src: 0 };
+                for pre in [0usize, 1, 2] {
+                    for k in [0u32, 1, 257, cap - 1, cap, cap + 1] {
+                        let mut acts = vec![Act::Next; pre];
+                        acts.extend([Act::Frames(k), Act::Next, Act::Exhausted, Act::Frames(1), Act::Exhausted, Act::Frames(cap + 1), Act::Next]);
+                        cases16.push((i, acts));
+                    }
+                }
+            }
+        }
+    }
+    let n16 = cases16.len() as u64;
+    cases16.par_iter().for_each(|(i, acts)| {
+        let mut cj = case_json(i, acts);
+        cj["src_len"] = json!(3 * i.cap as usize + 7);
+        let _guard_scope = guard::scoped(&cj.to_string());
+        if let Err((key, m)) = run_history_src(i, acts, 0, 3 * i.cap as usize + 7) {
+            ctx.violation(&key, cj, m, None);
+        }
+    });
+    ctx.add_evals(n16);
+    ctx.set("sixteen_bit_capacity_histories", json!(n16));
+    ctx.rule("16-bit boundary probes: capacities 65535, 65536, 65537 x residual fill level in {0, 1, 2, cap/2, cap-2, cap-1, cap} x start offset in {0, 1, 255, 256, cap/2, cap-1} x 0..2 leading next() calls x a batch of 0, 1, 257, cap-1, cap or cap+1 frames, then next / is_exhausted / a batch of 1 / a full batch: same stream, pull and exhaustion oracle");
     // soak probes: one long deterministic history per capacity on a single Buffered over a long source
     let soak_steps = ctx.tier.pick(20_000usize, 200_000);
-    for cap in [1u8, 2, 3, 5, 8, 48, 64] {
+    for cap in [1u32, 2, 3, 5, 8, 48, 64] {
         let i = Init { cap, start: cap - 1, len: cap / 2, src: 0 };
         let _guard_scope = guard::scoped(&json!({"sys":"buffered_soak","cap":cap,"steps":soak_steps}).to_string());
         let alpha = alphabet(cap);
